@@ -21,6 +21,8 @@ Theorem C01_generated_core : forall (l : ledger) (a b c : option Z),
 Proof. exact time_slice_generated. Qed.
 Theorem C01_generated_derived : forall l, dt_of l = gen_dt l /\ time_length l = gen_time_length l /\ stop_time l = gen_stop_time l.
 Proof. exact (fun l => conj (dt_generated l) (conj (time_length_generated l) (stop_time_generated l))). Qed.
+Theorem C01_generated_contains : gen_contains_is_half_open = true.
+Proof. exact contains_generated. Qed.
 Theorem C01_generated_guard : forall (a b c : option Z) (n lo hi st : Z),
   slice_indices a b c n = Some (lo, hi, st) -> gen_ts_guard lo hi st = true.
 Proof. exact slice_guard_generated. Qed.
